@@ -344,6 +344,13 @@ class TorchCalls(TorchOps):
                 ts = [I.truth(x) for x in lst.items]
                 if all(t is not None for t in ts):
                     return Const(any(ts) if fn == "any" else all(ts))
+            e_ = lst.elem if isinstance(lst, ListV) and lst.items is None else None
+            if isinstance(e_, TV) and e_.note.startswith("nonempty?") and "(&:" in e_.note:
+                # element-wise overlap tests folded by all()/any(): all(S.isdisjoint(t) for t in ts) asks whether S meets NO t — the emptiness of the
+                # intersection with the whole family; any(not S.isdisjoint(t) ...) asks the opposite
+                neg_ = e_.note.endswith("|neg")
+                if (fn == "all" and neg_) or (fn == "any" and not neg_):
+                    return TV(kind="pybool", dtype="Bool", note=e_.note)
             return TV(kind="pybool", dtype="Bool", note=fn)
         if fn in ("str", "repr", "print", "id", "hash"):
             return Const("<str>") if fn in ("str", "repr") else (NONE if fn == "print" else TV(kind="pyint"))
